@@ -302,28 +302,51 @@ func c19Units(p *core.Program, r *core.Report) {
 			continue
 		}
 		tobj := info.Defs[fi.Decl.Type.Params.List[0].Names[0]]
-		// the value returned, with locals and value helpers (unitOf(t, step)) expanded
-		val := stripConvs(info, inlineValue(p, fi, rs.Results[0], 0))
-		s := strings.ReplaceAll(stripSpaces(types.ExprString(val)), recvName(fi)+".", "")
 		var stepWant int64 = -1
 		if pk := p.Pkg("util/dateutil"); pk != nil {
 			if cst, isC := pk.Types.Scope().Lookup(step).(*types.Const); isC {
 				fmt.Sscanf(cst.Val().ExactString(), "%d", &stepWant)
 			}
 		}
-		good := false
-		if be, isB := val.(*ast.BinaryExpr); isB && be.Op == token.QUO {
-			if k, isC := constIntOf(info, stripConvs(info, be.Y)); isC && k == stepWant && stepWant > 0 {
-				if sub, isS := stripConvs(info, be.X).(*ast.BinaryExpr); isS && sub.Op == token.SUB {
-					tid, okT := stripConvs(info, sub.X).(*ast.Ident)
-					bsel, okB := stripConvs(info, sub.Y).(*ast.SelectorExpr)
-					if okT && okB && info.ObjectOf(tid) == tobj && bsel.Sel.Name == "BASE_TIME" {
-						good = true
+		// every value the function returns (not only the last return: a remembered answer handed out
+		// on an earlier return makes the unit depend on what was asked before), with locals and value
+		// helpers (unitOf(t, step)) expanded
+		var rets []*ast.ReturnStmt
+		ast.Inspect(fi.Decl.Body, func(n ast.Node) bool {
+			switch v := n.(type) {
+			case *ast.FuncLit:
+				return false
+			case *ast.ReturnStmt:
+				rets = append(rets, v)
+			}
+			return true
+		})
+		good := len(rets) > 0
+		s := ""
+		for _, ret := range rets {
+			if len(ret.Results) != 1 {
+				good = false
+				continue
+			}
+			val := stripConvs(info, inlineValue(p, fi, ret.Results[0], 0))
+			one := false
+			if be, isB := val.(*ast.BinaryExpr); isB && be.Op == token.QUO {
+				if k, isC := constIntOf(info, stripConvs(info, be.Y)); isC && k == stepWant && stepWant > 0 {
+					if sub, isS := stripConvs(info, be.X).(*ast.BinaryExpr); isS && sub.Op == token.SUB {
+						tid, okT := stripConvs(info, sub.X).(*ast.Ident)
+						bsel, okB := stripConvs(info, sub.Y).(*ast.SelectorExpr)
+						if okT && okB && info.ObjectOf(tid) == tobj && bsel.Sel.Name == "BASE_TIME" {
+							one = true
+						}
 					}
 				}
 			}
+			if !one {
+				good = false
+				s = strings.ReplaceAll(stripSpaces(types.ExprString(val)), recvName(fi)+".", "")
+			}
 		}
-		r.Check(good, "C19.units", c, p.Pos(fi.Decl.Pos()), "(t-BASE)/"+step, "unit is computed as `"+s+"`, not (t-BASE)/"+step)
+		r.Check(good, "C19.units", c, p.Pos(fi.Decl.Pos()), "(t-BASE)/"+step, "a returned unit is computed as `"+s+"`, not (t-BASE)/"+step)
 	}
 }
 
